@@ -180,7 +180,10 @@ def r4(ctx):
             return False
         return any(isinstance(x, ast.Attribute) and x.attr == "_reset_characteristics" for a in c.args for x in ast.walk(a))
     reg = call_nodes(g, is_register)
-    w = must_pass(g, setc, [g.exit], reg, edge_ok=no_exc) if reg else ['no finaliser registration at all']
+    # registered on every normal path after the set call, or already registered before any set call runs
+    pending = [n for n in setc if not reg or g.always_preceded(n, reg) is not None]
+    w = (must_pass(g, pending, [g.exit], reg, edge_ok=no_exc) if pending else None) if reg \
+        else ['no finaliser registration at all']
     ctx.check(bool(reg) and w is None, f.key + ":finaliser-registered",
               "a path sets a connection characteristic and returns without registering the "
               "_reset_characteristics finaliser on the connection record",
